@@ -145,7 +145,8 @@ CLAIMS = {
          "through the gates inside the library in schedule order; gates are never judged. TLC judges the observable outcome: what each channel "
          "yielded, which ordinary handlers ran, who is stuck, what is left in the table, worker death; plus concurrent duplicates through a real connection.",
     note="Trusted: TLC, the gate scheduler (a step that reaches no gate within 40 ms counts as blocked). With clashing ids only safety is asserted. "
-         "Component.SendIQ shares Router code; the component's inline dispatch is exercised by C05/C16 drivers, not here.",
+         "Every fifth schedule and every third stress scenario is run with a Component (XEP-0114: Component.SendIQ, in-order dispatch) instead of a Client; "
+         "every second schedule uses deadline-bearing contexts; stress responses come in four shapes (empty result, error without <error/>, payload plus unknown child, unknown payload).",
     technique=TECH),
  "C02": dict(
     text="StreamParser.tla is the reference semantics of InitStream + NextPacket over token sequences (one output per top-level element, its kind "
